@@ -473,6 +473,9 @@ def run(ctx):
     import c13
 
     ctx.include("C08.10", "a declaration with an initialiser assigns with the operator written (`signal x <-- e;`, `signal (q, r) <-- T()(..);`), not with one derived from the declared type (shared with C13.1)", lambda c: c13.eval_declaration_split(c, "C13.1"))
+    import c04
+
+    ctx.include("C08.11", "a `<--` statement the desugaring generates carries a location with its file: only the grammar builds spans, the fill pass gives every node its file id before the desugaring copies them (shared with C04.4/C04.5) - a finding without a file is dropped by the per-file filter", c04.rule_grammar_spans, c04.rule_fill, only=["ast::Meta::new/", "fill", "Fill"])
     ctx.include("C08.8", "prerequisite shared with C12.2/C13.3: the lifting keeps every statement of an initialisation block and of a block, in source order (the statements a `signal x <-- e` declaration desugars to are nested in such blocks)", c12.rule_lifting, only=["statements-in-source-order", "statement-kept", "every-statement-visited"])
     rule_constraints(ctx)
     rule_constraint_lookup(ctx)
